@@ -17,7 +17,7 @@ TEXT = {
  "C07": "fillna_scalar_pointwise, fillna_function_pointwise (the repaired fillna(0) + g.fillna(0)*isna pipeline), ffill_fills_from_the_left, bfill_fills_from_the_right (defined points unchanged; undefined points take the last / next defined value).",
  "C08": "value_sums, integral, mean, var (through the percentile pipeline as the code does): theorems pending; correspondence + oracle (exact on dyadic data, 1e-9 otherwise).",
  "C09": "ecdf, percentile, fractile, median, mode, hist, describe: theorems pending; correspondence + oracle on power-of-two totals (exact) and general totals (tolerant).",
- "C10": "values_in_range/min/max with the 4x2 bisect-side table: theorems pending; correspondence + oracle with endpoints on every step point for all 8 rows.",
+ "C10": "values_in_range_is_exactly_the_value_set (iff, for all 8 rows of the bisect-side table, bounded / half-bounded / unbounded windows, using density of the rational domain), sorted without duplicates, min / max are the least / greatest element. Windows need lower < upper (the code rejects others in clip/agg). Correspondence puts window end points on every step point for every row.",
  "C11": "slicer statistics and resample (repaired): theorems pending; correspondence + oracle.",
  "C12": "every_operation_returns_a_minimal_result, minimal_form_is_canonical, identical_decides_equality (iff), bool_is_true_exactly_for_the_constant_one, algebraic_identities_up_to_identical (7 identities). Minimality of scalar-path layering results is covered by the correspondence (raw step tables compared) rather than by a theorem.",
  "C13": "partial: frame rule on the model (a statement changes only its target register; reads and queries change no function; any program) is a theorem, but a functional model cannot exhibit numpy/pandas aliasing: 'results never share mutable state' is decided by mutate-then-observe programs (incl. in-place scalar layers at existing step points) and an object-identity check in the correspondence run.",
@@ -25,7 +25,7 @@ TEXT = {
  "C15": "side rule and mismatch-iff theorems for all binary operators (scalars on either side), mask/where/fillna by a function, one-operand operations, clip, layering, tuple shorthands (never a mismatch). Collection aggregation, cov/corr, shift and resample are covered by the complete shapes x sides grid of the correspondence check.",
  "C16": "binary_operators_respect_denotation, one_operand_operations_respect_denotation, materialisation_is_invisible: results depend only on the denoted functions and closed sides (for the minimal, well-formed objects the public API produces). Construction routes, scalar types and compositions are exercised by programs run in four provenance / materialisation / scalar-type variants each against the one model result.",
  "C17": "every program replayed in 7 domain types (int, float, naive datetime, tz-aware fixed/DST/UTC, timedelta) against the one model run; the generic-domain theorems (all of C01, C03-C05 are stated for every Ord D) carry the order-only part.",
- "C18": "aggregation model (union of step points, right limits, NaN-propagating reduction): theorems pending; correspondence + oracle over every container type.",
+ "C18": "aggregation_is_pointwise (wf, minimal, side rule, pointwise reduce incl. NaN propagation), sum_is_folding_plus, aggregation_rejects_exactly_mixed_sides are theorems; element-wise StairsArray operators, sample/limit tables and cov/corr matrices are not modelled: the harness expands them into the per-member statements they must equal and compares (partial).",
  "C19": "cov / corr (signed square, no sqrt in the model): theorems pending; correspondence + oracle incl. symmetry, cov(f,f)=var, lag equivalence programs.",
  "C20": "shift_translates and diff_is_f_minus_shifted_f are theorems; rolling_mean (knots, window means, interpolation claim) is decided by correspondence + oracle only.",
 }
